@@ -12,7 +12,11 @@ getcontext().prec = 70
 
 
 def exp_table(n, hist_back):
-    """E[e][j] = exp(-C(j,2) T_e/nu_e) to 70 digits, as exact rationals (index j-1 unused -> "1")."""
+    """E[e][j] = exp(-C(j,2) T_e/nu_e), evaluated to 70 digits and rounded to a multiple of 1e-60 (at least 1e-60, so that
+    the table stays positive), as exact rationals (index j-1 unused -> "1").  The common denominator keeps the exact
+    arithmetic of the coalescent formula cheap; the absolute error 1e-60, amplified by the alternating coefficients of the
+    lineage-count formula (< 1e17 for n <= 30), stays below 1e-42 of a spectrum entry."""
+    Q = 10 ** 60
     tab = []
     for ep in hist_back:
         nu, T = Fraction(ep['nu']), Fraction(ep['T'])
@@ -20,7 +24,7 @@ def exp_table(n, hist_back):
         for j in range(2, n + 1):
             arg = Fraction(j * (j - 1), 2) * T / nu
             d = (Decimal(-arg.numerator) / Decimal(arg.denominator)).exp()
-            f = Fraction(d)
+            f = Fraction(max(1, round(Fraction(d) * Q)), Q)
             row.append(rat(f))
         tab.append(row)
     return tab
@@ -304,7 +308,7 @@ def run(ctx):
              '[100,120,140] / [110,130,150], linear and log extrapolation, constant and time-function sizes, library models and one_pop chains, each at '
              'timescale factors 1e-3 ... 1e-4; equilibrium records: gamma in [-60,40], h in [0,1], nu in [0.1,10] on 2-3 grid lists; regime records at every '
              'numerical switch of phi_1D and at the extremes of the stated domain; stationarity records on doubled grids',
-        assumptions=['exp(-C(j,2)T/nu) supplied to 70 digits by the stdlib decimal module; the selection density D(x) supplied at 160 Gauss-Legendre nodes by '
+        assumptions=['exp(-C(j,2)T/nu) supplied with absolute accuracy 1e-60 by the stdlib decimal module (70-digit evaluation); the selection density D(x) supplied at 160 Gauss-Legendre nodes by '
                      'an independent evaluation (closed form / composite quadrature); TLC computes the coalescent expectation and the sampling quadrature exactly',
                      'the 1.5 % bound is applied with grid lists >= [100,120,140]; for equilibrium spectra only for |gamma| <= 10 (calibration in DESIGN C01), '
                      'elsewhere the error must shrink by >= 2x per grid doubling', 'convergence is sampled at 2-4 refinement levels, not proved'],
